@@ -11,7 +11,12 @@
 // twice; a never-seen handshake stamped hour-1/hour/hour+1 is accepted, any other offset is
 // rejected with zero bytes written; the reference client verifies the server's answer (MAC_S
 // with the CLIENT's hour, AUTH); of 16 simultaneous submissions of one fresh blob exactly one
-// succeeds. (The 3 h expiry of filter entries cannot be waited for: that part is carried by the
+// succeeds; every rejected submission (replay, out-of-window) gets 0 bytes and is closed only when
+// the bridge's fixed close deadline (30..90 s, the same for all of them) fires, and every replay
+// is compared on the wire — action sequence and close deadline — with a control: the same bytes
+// with one MAC bit flipped, delivered the same way to the same bridge ("treated exactly like an
+// invalid handshake"). Replays and controls are tied to the WrapConn machine of the model
+// (conn.run: C04.replay_is_invalid says a replay takes the failure path of C03). (The 3 h expiry of filter entries cannot be waited for: that part is carried by the
 // theorem C04.at_most_once and C11's own tie.)
 package main
 
@@ -133,6 +138,51 @@ func burst(sf base.ServerFactory, blob []byte, n int) (okCount int, written int,
 	return
 }
 
+func canon(toks []string) string {
+	out := make([]string, len(toks))
+	for i, t := range toks {
+		if strings.HasPrefix(t, "W:") {
+			t = "W"
+		}
+		out[i] = t
+	}
+	return strings.Join(out, " ")
+}
+
+// wireOracle: what the peer of a rejected handshake may observe (property text: treated exactly
+// like an invalid handshake — C03: no byte, no close before the bridge's fixed close time, which
+// is the same for every rejected submission of one bridge and lies in [30 s, 90 s)).
+func wireOracle(h history, i int, w *worker, what, desc string, res srvh.Result, lo, hi *time.Duration, have *bool) {
+	switch {
+	case res.Written != 0:
+		violate("bytes-written-on-reject", "impl-oracle", fmt.Sprintf("%s: %d bytes written | %s | %s", what, res.Written, res.Render(), desc), h, i, w)
+	case res.Blocked:
+		violate("reject-never-closed", "impl-oracle", fmt.Sprintf("%s: server blocks with no deadline armed | %s | %s", what, res.Render(), desc), h, i, w)
+	case res.Closes != 1 || !res.CloseByTimeout:
+		violate("reject-closed-before-close-time", "impl-oracle",
+			fmt.Sprintf("%s: %d closes, last read timed out = %v — the conn is closed (or handed back to the caller, who closes it) although neither the read deadline fired nor the peer disconnected | %s | %s",
+				what, res.Closes, res.CloseByTimeout, res.Render(), desc), h, i, w)
+	default:
+		l, u := res.CloseOff-res.Slack-srvh.Tolerance, res.CloseOff+srvh.Tolerance
+		if u < 30*time.Second || l >= 90*time.Second {
+			violate("close-time-out-of-range", "impl-oracle", fmt.Sprintf("%s: closed when the deadline +%.3fs fired | %s", what, res.CloseOff.Seconds(), desc), h, i, w)
+		}
+		if !*have {
+			*have, *lo, *hi = true, l, u
+		} else if u < *lo || l > *hi {
+			violate("close-time-differs-between-rejects", "impl-oracle",
+				fmt.Sprintf("%s: close deadline +%.3fs, other rejected handshakes of this bridge +%.3fs..+%.3fs | %s", what, res.CloseOff.Seconds(), lo.Seconds(), hi.Seconds(), desc), h, i, w)
+		} else {
+			if l > *lo {
+				*lo = l
+			}
+			if u < *hi {
+				*hi = u
+			}
+		}
+	}
+}
+
 // runHistory executes one history; false = the epoch hour changed underneath (retry).
 func runHistory(w *worker, h history) bool {
 	id := o4h.NewIdentity(vlib.NewRng(h.IdSeed), 0)
@@ -163,8 +213,11 @@ func runHistory(w *worker, h history) bool {
 		nOK   int
 		wires [][]byte
 		now   int64 // time of the replay-filter submission handed to the model (0: StartNs+1000)
+		ctl   *srvh.Result // replay ops: the same bridge on a plain invalid handshake of the same length and chunking
 	}
 	var recs []rec
+	var closeLo, closeHi time.Duration // running intersection of the close-deadline intervals of this bridge
+	var haveClose bool
 	// connections that were accepted and sit in Read one byte short of their handshake
 	pending := map[int]*srvh.Pending{}
 	defer func() {
@@ -241,7 +294,23 @@ func runHistory(w *worker, h history) bool {
 			if res.Hour0 != hour || res.Hour1 != hour {
 				return false
 			}
-			recs = append(recs, rec{i: i, desc: desc, class: res.ErrClass, res: res, blob: s.blob, exp: exp})
+			rc := rec{i: i, desc: desc, class: res.ErrClass, res: res, blob: s.blob, exp: exp}
+			if o.Kind == "replay" {
+				// control: the same bytes with one MAC bit flipped (a plain invalid handshake),
+				// delivered the same way to the same bridge
+				bad := append([]byte(nil), s.blob...)
+				bad[len(bad)-1] ^= 1
+				var cst []srvh.Step
+				for _, c := range o4h.Split(bad, o.Cuts) {
+					cst = append(cst, srvh.Step{K: "c", B: c})
+				}
+				ctl := srvh.RunWrap(sf, cst, serverTape(o.SrvSeed^0xc7), false)
+				if ctl.Hour0 != hour || ctl.Hour1 != hour {
+					return false
+				}
+				rc.ctl = &ctl
+			}
+			recs = append(recs, rc)
 		}
 		submitted[key] = true
 	}
@@ -311,8 +380,30 @@ func runHistory(w *worker, h history) bool {
 			}
 			violate(sig, "impl-oracle", fmt.Sprintf("expected %s, implementation %s | %s | %s", rc.exp, rc.class, rc.desc, rc.res.Render()), h, rc.i, w)
 		}
-		if got == "reject" && rc.res.Written != 0 {
-			violate("bytes-written-on-reject", "impl-oracle", fmt.Sprintf("%d bytes written although rejected | %s", rc.res.Written, rc.desc), h, rc.i, w)
+		if got == "reject" {
+			wireOracle(h, rc.i, w, "rejected handshake", rc.desc, rc.res, &closeLo, &closeHi, &haveClose)
+		}
+		if rc.ctl != nil {
+			r.Count("impl_wire_control", canon(rc.ctl.Tokens))
+			wireOracle(h, rc.i, w, "control (one MAC bit flipped)", rc.desc, *rc.ctl, &closeLo, &closeHi, &haveClose)
+			if got == "reject" {
+				a, b := rc.res, *rc.ctl
+				same := canon(a.Tokens) == canon(b.Tokens) && a.Written == b.Written && a.Closes == b.Closes && a.CloseByTimeout == b.CloseByTimeout
+				if same && a.CloseByTimeout {
+					// the close deadlines relative to the real accept times must be compatible
+					alo, ahi := a.CloseOff-a.Slack-srvh.Tolerance, a.CloseOff+srvh.Tolerance
+					blo, bhi := b.CloseOff-b.Slack-srvh.Tolerance, b.CloseOff+srvh.Tolerance
+					same = !(ahi < blo || bhi < alo)
+				}
+				if !same {
+					violate("replay-not-treated-like-invalid-handshake", "impl-oracle",
+						fmt.Sprintf("on the wire a replay gets [%s] but a plain invalid handshake of the same length on the same bridge gets [%s] | %s",
+							a.Render(), b.Render(), rc.desc), h, rc.i, w)
+				}
+			}
+		}
+		if got == "reject" {
+			r.Count("impl_wire_reject", canon(rc.res.Tokens))
 		}
 		if got == "accept" && (o.Kind == "fresh" || o.Kind == "finish") {
 			if rep := w.ref.CliFeed(subs[rc.i].cli, rc.res.Wire); rep.Class != "ok" {
@@ -322,6 +413,23 @@ func runHistory(w *worker, h history) bool {
 			}
 		}
 		// ---- C
+		if o.Kind == "replay" {
+			// the WrapConn machine of C03 (C04.replay_is_invalid: a replay takes its failure path)
+			m := w.srv.ConnRun(fname, rc.res.StartNs, rc.res.TapeUsed, rc.res.Conn.ModelEvents(hour))
+			r.Validated(1)
+			if why := srvh.Compare(rc.res, m); why != "" {
+				violate("model-impl-disagree/replay-"+strings.ReplaceAll(why, " ", "-"), "correspondence",
+					fmt.Sprintf("%s: implementation [%s], model [%s] | %s", why, rc.res.Render(), m.Render(), rc.desc), h, rc.i, w)
+			}
+			if rc.ctl != nil {
+				mc := w.srv.ConnRun(fname, rc.ctl.StartNs, rc.ctl.TapeUsed, rc.ctl.Conn.ModelEvents(hour))
+				if why := srvh.Compare(*rc.ctl, mc); why != "" {
+					violate("model-impl-disagree/control-"+strings.ReplaceAll(why, " ", "-"), "correspondence",
+						fmt.Sprintf("%s: implementation [%s], model [%s] | control of %s", why, rc.ctl.Render(), mc.Render(), rc.desc), h, rc.i, w)
+				}
+			}
+			continue
+		}
 		now := rc.res.StartNs + 1000
 		if rc.now != 0 {
 			now = rc.now
